@@ -112,7 +112,7 @@ theorem range_spec (r : Rng α) (hi : Inv r) (sr sc er ec : Nat) (r' : Rng α)
     exact hv p q hin.1 hin.2.1 hin.2.2.1 hin.2.2.2
   · rw [if_neg hin, valAt_of_out r' p q (by omega)]
 
-/-! ## `from_sparse` -/
+/-! ## `from_sparse` (any cell order, after fix D40) -/
 
 /-- `from_sparse` yields a consistent rectangle (empty iff there are no cells) -/
 theorem inv_fromSparse (cells : List (Nat × Nat × α)) (r : Rng α) (h : fromSparse cells = .ok r) :
@@ -129,50 +129,67 @@ theorem inv_fromSparse (cells : List (Nat × Nat × α)) (r : Rng α) (h : fromS
       rw [hl]; exact Nat.ne_of_gt (Nat.mul_pos (by omega) (by omega))
     exact ⟨mkInv _ _ _ _ _ h1 h2 hl, by simp [hpos]⟩
 
-/-- `from_sparse`: the bounds are (first row, min col)–(last row, max col) — the tight bounding box when the
-    cells are sorted by row —, every position holds the value of the *last* input cell at that position
-    (last writer wins), every other position the default. Cells below the last cell's row are dropped
-    (they violate the documented precondition); a cell above the first's row makes the call panic. -/
-theorem fromSparse_spec (cells : List (Nat × Nat × α)) (hne : cells ≠ []) (r : Rng α)
+/-- `from_sparse` on cells in ANY order: the bounds are the tight bounding box — (min row, min col)–(max row,
+    max col), each attained by an input cell —, every position holds the value of the *last* input cell at
+    that position (last writer wins), every other position the default. No cell is dropped. -/
+theorem fromSparse_spec_any (cells : List (Nat × Nat × α)) (hne : cells ≠ []) (r : Rng α)
     (h : fromSparse cells = .ok r) :
-    r.inner.length ≠ 0 ∧ r.sr = (cells.head hne).1 ∧ r.er = (cells.getLast hne).1 ∧
-    (∀ c ∈ cells, r.sr ≤ c.1 ∧ r.sc ≤ c.2.1 ∧ c.2.1 ≤ r.ec) ∧
-    (∃ c ∈ cells, c.2.1 = r.ec) ∧ ((∀ c ∈ cells, c.2.1 < U32) → ∃ c ∈ cells, c.2.1 = r.sc) ∧
-    ∀ p q, r.valAt p q = if p ≤ r.er then (lastAt cells p q).getD default else default := by
+    r.inner.length ≠ 0 ∧
+    (∀ c ∈ cells, r.sr ≤ c.1 ∧ c.1 ≤ r.er ∧ r.sc ≤ c.2.1 ∧ c.2.1 ≤ r.ec) ∧
+    (∃ c ∈ cells, c.1 = r.sr) ∧ (∃ c ∈ cells, c.1 = r.er) ∧
+    (∃ c ∈ cells, c.2.1 = r.sc) ∧ (∃ c ∈ cells, c.2.1 = r.ec) ∧
+    ∀ p q, r.valAt p q = (lastAt cells p q).getD default := by
   obtain ⟨hinv, hemp⟩ := inv_fromSparse cells r h
   have hpos : r.inner.length ≠ 0 := fun h0 => hne (hemp.mp h0)
   cases cells with
   | nil => exact absurd rfl hne
   | cons c0 rest =>
-    obtain ⟨e1, e2, e3, e4, h1, h2, hl, hmem, hv⟩ := fromSparse_core c0 rest r h
-    have hmin := foldMin_spec (c0 :: rest) (U32 - 1)
-    have hmax := foldMax_spec (c0 :: rest) 0
-    rw [← e3] at hmin; rw [← e4] at hmax
-    have hc0 := hmem c0 (List.mem_cons_self ..)
-    refine ⟨hpos, e1, ?_, hmem, ?_, ?_, ?_⟩
-    · rw [e2, List.getLast?_eq_some_getLast hne]; rfl
-    · rcases hmax.2.2 with h0 | hex
-      · exact ⟨c0, List.mem_cons_self .., by omega⟩
-      · exact hex
-    · intro hu
-      rcases hmin.2.2 with h0 | hex
-      · have := hu c0 (List.mem_cons_self ..)
-        exact ⟨c0, List.mem_cons_self .., by omega⟩
-      · exact hex
-    · intro p q
-      by_cases hin : r.sr ≤ p ∧ p ≤ r.er ∧ r.sc ≤ q ∧ q ≤ r.ec
-      · rw [valAt_of_in r p q hpos hin, hinv.width_eq hpos, if_pos hin.2.1]
-        exact hv p q hin.1 hin.2.1 hin.2.2.1 hin.2.2.2
-      · rw [valAt_of_out r p q (by omega)]
-        split
-        · have : lastAt (c0 :: rest) p q = none := by
-            unfold lastAt
-            rw [Option.map_eq_none_iff, List.find?_eq_none]
-            intro c hc
-            have := hmem c (List.mem_reverse.mp hc)
-            simp only [decide_eq_true_eq]; omega
-          rw [this]; rfl
-        · rfl
+    obtain ⟨_, _, _, _, h1, h2, hl, hmem, hv⟩ := fromSparse_core c0 rest r h
+    obtain ⟨t1, t2, t3, t4⟩ := fromSparse_attained c0 rest r h
+    refine ⟨hpos, hmem, t1, t2, t3, t4, fun p q => ?_⟩
+    by_cases hin : r.sr ≤ p ∧ p ≤ r.er ∧ r.sc ≤ q ∧ q ≤ r.ec
+    · rw [valAt_of_in r p q hpos hin, hinv.width_eq hpos]
+      exact hv p q hin.1 hin.2.1 hin.2.2.1 hin.2.2.2
+    · rw [valAt_of_out r p q (by omega)]
+      have : lastAt (c0 :: rest) p q = none := by
+        unfold lastAt
+        rw [Option.map_eq_none_iff, List.find?_eq_none]
+        intro c hc
+        have := hmem c (List.mem_reverse.mp hc)
+        simp only [decide_eq_true_eq]; omega
+      rw [this]; rfl
+
+/-- the statement for row-sorted input (the precondition documented before fix D40: every row lies between
+    the first cell's and the last cell's): the row bounds are the first and the last cell's rows. Kept in
+    this form for the readers' theorems, which hand `from_sparse` cells in document order. -/
+theorem fromSparse_spec (cells : List (Nat × Nat × α)) (hne : cells ≠ []) (r : Rng α)
+    (h : fromSparse cells = .ok r)
+    (hs : ∀ c ∈ cells, (cells.head hne).1 ≤ c.1 ∧ c.1 ≤ (cells.getLast hne).1) :
+    r.inner.length ≠ 0 ∧ r.sr = (cells.head hne).1 ∧ r.er = (cells.getLast hne).1 ∧
+    (∀ c ∈ cells, r.sr ≤ c.1 ∧ r.sc ≤ c.2.1 ∧ c.2.1 ≤ r.ec) ∧
+    (∃ c ∈ cells, c.2.1 = r.ec) ∧ ((∀ c ∈ cells, c.2.1 < U32) → ∃ c ∈ cells, c.2.1 = r.sc) ∧
+    ∀ p q, r.valAt p q = if p ≤ r.er then (lastAt cells p q).getD default else default := by
+  obtain ⟨hpos, hmem, ⟨c1, hc1, e1⟩, ⟨c2, hc2, e2⟩, hsc, hec, hv⟩ := fromSparse_spec_any cells hne r h
+  have hsr : r.sr = (cells.head hne).1 := by
+    have a := (hmem _ (List.head_mem hne)).1
+    have b := (hs c1 hc1).1
+    omega
+  have her : r.er = (cells.getLast hne).1 := by
+    have a := (hmem _ (List.getLast_mem hne)).2.1
+    have b := (hs c2 hc2).2
+    omega
+  refine ⟨hpos, hsr, her, fun c hc => ⟨(hmem c hc).1, (hmem c hc).2.2.1, (hmem c hc).2.2.2⟩, hec,
+    fun _ => hsc, fun p q => ?_⟩
+  rw [hv p q]
+  split
+  · rfl
+  · have : lastAt cells p q = none := by
+      unfold lastAt
+      rw [Option.map_eq_none_iff, List.find?_eq_none]
+      intro c hc
+      have := (hmem c (List.mem_reverse.mp hc)).2.1
+      simp only [decide_eq_true_eq]; omega
+    rw [this]; rfl
 
 theorem lastAt_append_cons (l1 l2 : List (Nat × Nat × α)) (c : Nat × Nat × α)
     (hl2 : ∀ c' ∈ l2, ¬ (c'.1 = c.1 ∧ c'.2.1 = c.2.1)) :
@@ -183,29 +200,18 @@ theorem lastAt_append_cons (l1 l2 : List (Nat × Nat × α)) (c : Nat × Nat × 
     rw [List.find?_eq_none]; intro x hx; simpa using hl2 x (List.mem_reverse.mp hx)
   rw [this]; simp
 
-/-- under the documented precondition (rows sorted, so none exceeds the last cell's row) every position
-    holds the last cell written there, or the default -/
+/-- every position holds the last cell written there, or the default (the row-order hypothesis is no longer
+    needed after fix D40; kept so that existing callers still type-check) -/
 theorem fromSparse_spec_sorted (cells : List (Nat × Nat × α)) (hne : cells ≠ []) (r : Rng α)
-    (h : fromSparse cells = .ok r) (hs : ∀ c ∈ cells, c.1 ≤ (cells.getLast hne).1) (p q : Nat) :
-    r.valAt p q = (lastAt cells p q).getD default := by
-  obtain ⟨_, _, her, _, _, _, hv⟩ := fromSparse_spec cells hne r h
-  rw [hv p q]
-  split
-  · rfl
-  · have : lastAt cells p q = none := by
-      unfold lastAt
-      rw [Option.map_eq_none_iff, List.find?_eq_none]
-      intro c hc
-      have := hs c (List.mem_reverse.mp hc)
-      simp only [decide_eq_true_eq]; omega
-    rw [this]; rfl
+    (h : fromSparse cells = .ok r) (_hs : ∀ c ∈ cells, c.1 ≤ (cells.getLast hne).1) (p q : Nat) :
+    r.valAt p q = (lastAt cells p q).getD default :=
+  (fromSparse_spec_any cells hne r h).2.2.2.2.2.2 p q
 
-/-- every input cell (not below the last row) is at its position unless a later cell overwrites it -/
+/-- every input cell is at its position unless a later cell overwrites it (any cell order) -/
 theorem fromSparse_last_wins (l1 l2 : List (Nat × Nat × α)) (c : Nat × Nat × α) (r : Rng α)
-    (h : fromSparse (l1 ++ c :: l2) = .ok r) (hrow : c.1 ≤ r.er)
+    (h : fromSparse (l1 ++ c :: l2) = .ok r)
     (hl2 : ∀ c' ∈ l2, ¬ (c'.1 = c.1 ∧ c'.2.1 = c.2.1)) : r.valAt c.1 c.2.1 = c.2.2 := by
-  obtain ⟨_, _, _, _, _, _, hv⟩ := fromSparse_spec (l1 ++ c :: l2) (by simp) r h
-  rw [hv, if_pos hrow, lastAt_append_cons l1 l2 c hl2]; rfl
+  rw [(fromSparse_spec_any (l1 ++ c :: l2) (by simp) r h).2.2.2.2.2.2, lastAt_append_cons l1 l2 c hl2]; rfl
 
 /-- a position no input cell addresses holds the default value -/
 theorem fromSparse_untouched (cells : List (Nat × Nat × α)) (r : Rng α) (h : fromSparse cells = .ok r)
@@ -215,14 +221,21 @@ theorem fromSparse_untouched (cells : List (Nat × Nat × α)) (r : Rng α) (h :
     simp only [fromSparse] at h; injection h with h; subst h
     exact valAt_of_out _ _ _ (by simp [empty])
   | cons c0 rest =>
-    obtain ⟨_, _, _, _, _, _, hv⟩ := fromSparse_spec (c0 :: rest) (by simp) r h
-    rw [hv]
+    rw [(fromSparse_spec_any (c0 :: rest) (by simp) r h).2.2.2.2.2.2]
     have : lastAt (c0 :: rest) p q = none := by
       unfold lastAt
       rw [Option.map_eq_none_iff, List.find?_eq_none]
       intro c hc
       simpa using hno c (List.mem_reverse.mp hc)
-    rw [this]; split <;> rfl
+    rw [this]; rfl
+
+/-- **`from_sparse` never panics on `u32` cells in any order** whose row and column spans `+ 1` fit `u32`
+    (no order hypothesis) -/
+theorem fromSparse_no_panic (cells : List (Nat × Nat × α))
+    (hb : ∀ c ∈ cells, c.1 < 4294967296 ∧ c.2.1 < 4294967296)
+    (hspan : ∀ c ∈ cells, ∀ c' ∈ cells, c'.1 - c.1 + 1 < 4294967296 ∧ c'.2.1 - c.2.1 + 1 < 4294967296) :
+    ∃ r, fromSparse cells = .ok r :=
+  fromSparse_of_pre cells ⟨hb, hspan⟩
 
 /-! ## `set_value` -/
 
@@ -632,7 +645,11 @@ example : setValue (empty : Rng Nat) 0 0 1 = .panic "empty range" := rfl
 example : setValue (⟨1, 1, 2, 2, [7, 0, 0, 0]⟩ : Rng Nat) 0 1 9 = .panic "absolute_position out of bounds" := rfl
 example : (new 0 0 65535 65535 : Res (Rng Nat)) = .panic "u32 mul overflow" := by
   unfold new; rfl
-example : fromSparse [(2, 0, (1 : Nat)), (1, 0, 2), (3, 0, 3)] = .panic "u32 sub overflow" := rfl
+/-- cells out of row order (the D40 witnesses): no panic, nothing dropped -/
+example : fromSparse [(2, 0, (1 : Nat)), (1, 0, 2), (3, 0, 3)] = .ok ⟨1, 0, 3, 0, [2, 1, 3]⟩ := rfl
+example : fromSparse [(3, 259, (0 : Nat)), (0, 261, 4)] =
+    .ok ⟨0, 259, 3, 261, [0, 0, 4, 0, 0, 0, 0, 0, 0, 0, 0, 0]⟩ := rfl
+example : fromSparse [(0, 4294967295, (1 : Nat)), (0, 0, 2)] = .panic "u32 add overflow" := rfl
 
 /-- iterators and accessors on a concrete range -/
 example : rows (⟨3, 4, 4, 6, [1, 0, 3, 4, 5, 0]⟩ : Rng Nat) = [[1, 0, 3], [4, 5, 0]] := rfl
